@@ -39,10 +39,17 @@ def references(ctx):
     with ctxm.Pool(processes=min(16, len(jobs)), maxtasksperchild=1) as pool:
         res = pool.map(S.reference_worker, jobs, chunksize=1)
     ref = {}
+    raised = []
     for g, k, h, err in res:
         ref[(g, k)] = (h, err)
         if err:
-            raise MachineryError(f'reference operation {S.op_label(g, k)} raised {err} in a fresh interpreter')
+            # an operation that raises on freshly built objects is not a machinery failure: the pooled execution must
+            # then raise the same way (PureResult compares digests AND exception classes); whether raising is right is
+            # the business of the property that owns the operation
+            raised.append(f'{S.op_label(g, k)}: {err}')
+    ctx.notes['reference_operations_that_raise'] = raised
+    if len(raised) > len(res) // 2:
+        raise MachineryError(f'most reference operations raise in a fresh interpreter, e.g. {raised[:3]}')
     return ref
 
 
